@@ -418,16 +418,30 @@ void thrift_skip(thrift_decoder_t* dec, thrift_type_t type) {
 
         case THRIFT_TYPE_LIST:
         case THRIFT_TYPE_SET: {
+            /* Containers nest through recursion: bound the depth like struct
+             * nesting, or a few hundred kilobytes of list headers overflow
+             * the stack */
+            if (dec->nesting_level >= THRIFT_MAX_NESTING) {
+                set_error(dec, CARQUET_ERROR_THRIFT_DECODE, "Container nesting too deep");
+                break;
+            }
+            dec->nesting_level++;
             thrift_type_t elem_type;
             int32_t count;
             thrift_read_list_begin(dec, &elem_type, &count);
             for (int32_t i = 0; i < count && dec->status == CARQUET_OK; i++) {
                 skip_element(dec, elem_type);
             }
+            dec->nesting_level--;
             break;
         }
 
         case THRIFT_TYPE_MAP: {
+            if (dec->nesting_level >= THRIFT_MAX_NESTING) {
+                set_error(dec, CARQUET_ERROR_THRIFT_DECODE, "Container nesting too deep");
+                break;
+            }
+            dec->nesting_level++;
             thrift_type_t key_type, value_type;
             int32_t count;
             thrift_read_map_begin(dec, &key_type, &value_type, &count);
@@ -435,6 +449,7 @@ void thrift_skip(thrift_decoder_t* dec, thrift_type_t type) {
                 skip_element(dec, key_type);
                 skip_element(dec, value_type);
             }
+            dec->nesting_level--;
             break;
         }
 
